@@ -108,6 +108,16 @@ def render_obligations(ctx: Ctx, I: Interp) -> None:
         v = l.value
         ok4 = rend and v is not None and _q(_call_of(v)) == rend[0].target.qual and (_call_of(v) or {}).get("recv") is rend[0].key
         ctx.check(bool(ok4), "C11.R1", "render returns the rendering result (markup and dependency list) of the html tree", where, f"returns {short(v)}", "render() returns something else than the tree's rendering result")
+        if ok4:
+            def _of_result(t: Any) -> bool:
+                io = getattr(t, "meta", {}).get("item_of") if isinstance(t, SObj) else None
+                return isinstance(io, tuple) and io[0] is v
+            other = [e for e in l.effects if (e.kind in ("store_item", "del_item") and e.target is v and e.key != "html")
+                     or (e.kind in ("mutcall", "store_item", "store_slice", "del_item") and _of_result(e.target))]
+            ctx.check(not other, "C11.R1", "the dependency list of the rendering result is returned untouched", where,
+                      f"{[(e.kind, short(e.key)) for e in other][:3]}",
+                      f"render() rewrites the rendering result besides its markup ({[(e.kind, short(e.key)) for e in other][:2]}): the returned dependency list is no longer "
+                      f"exactly the resolved list", witness="HTMLDocument(div(dep_a, dep_b)).render()['dependencies']")
     ctx.min_count("HTMLDocument.render paths", n, 1)
 
 
